@@ -38,6 +38,9 @@ class MProg:
     tags: set = field(default_factory=set)
 
 
+NATIVE_MARKERS = [False]      # render(..., native_markers=True) marks early returns for the native evaluator
+
+
 def lit(v):
     return ("lit", v)
 
@@ -85,31 +88,49 @@ def render_stmts(stmts, ind, out):
         elif k == "sub":
             out.append(pad + f"{st[1]}({', '.join(render_arg(a) for a in st[2])})")
         elif k == "ret":
+            if NATIVE_MARKERS[0]:
+                out.append(pad + "__mark_early_return__()")
             out.append(pad + "return")
+        elif k == "closure":
+            out.append(pad + f"def {st[1]}({', '.join(p + ': ' + a for p, a in st[2])}):")
+            render_stmts(st[3], ind + 1, out)
         elif k == "raw":
             out.append(pad + st[1])
         else:
             raise ValueError(k)
 
 
-def render(prog, decorator="@move", main="main"):
-    out = []
-    for name, (sig, body, _) in TWEEZERS.items():
-        out.append("@tweezer")
-        out.append(f"def {name}{sig}:{body}")
-    for name, params, body in prog.subs:
-        out.append("@move")
-        out.append(f"def {name}({', '.join(p + (': ' + a if a else '') for p, a in params)}):")
-        render_stmts(body, 1, out)
-        out.append("")
-    out.append(decorator)
-    out.append(f"def {main}({', '.join(p + (': ' + a if a else '') for p, a in prog.params)}):")
+def prologue(prog, out):
     out.append("    z0 = spec.get_static_trap(zone_id=\"traps\")")
     out.append("    z1 = spec.get_static_trap(zone_id=\"aux\")")
     for var, kern, rev in prog.devs:
         xt, yt = TONES[kern]
         e = f"schedule.device_fn({kern}, {xt}, {yt})"
         out.append(f"    {var} = " + (f"schedule.reverse({e})" if rev else e))
+
+
+def render(prog, decorator="@move", main="main", sub_decorator="@move", native_markers=False):
+    NATIVE_MARKERS[0] = native_markers
+    try:
+        return _render(prog, decorator, main, sub_decorator)
+    finally:
+        NATIVE_MARKERS[0] = False
+
+
+def _render(prog, decorator, main, sub_decorator):
+    out = []
+    for name, (sig, body, _) in TWEEZERS.items():
+        out.append("@tweezer")
+        out.append(f"def {name}{sig}:{body}")
+    for name, params, body in prog.subs:
+        out.append(sub_decorator)
+        out.append(f"def {name}({', '.join(p + (': ' + a if a else '') for p, a in params)}):")
+        prologue(prog, out)
+        render_stmts(body, 1, out)
+        out.append("")
+    out.append(decorator)
+    out.append(f"def {main}({', '.join(p + (': ' + a if a else '') for p, a in prog.params)}):")
+    prologue(prog, out)
     render_stmts(prog.body, 1, out)
     return "\n".join(out) + "\n"
 
@@ -189,7 +210,19 @@ class MG:
         out = []
         for _ in range(n):
             r = rng.random()
-            if r < 0.30:
+            names = getattr(self, "subnames", [])
+            if names and rng.random() < 0.2:
+                nm = rng.choice(names)
+                ints = [p for p, a in params if a == "int"] + self.loopvars
+                a0 = ("var", rng.choice(ints)) if ints and rng.random() < 0.6 else lit(rng.randint(0, 2))
+                if nm == "inner":
+                    out.append(("sub", nm, [a0]))
+                else:
+                    bools = [p for p, a in params if a == "bool"]
+                    a1 = ("var", rng.choice(bools)) if bools and rng.random() < 0.6 else lit(rng.random() < 0.5)
+                    out.append(("sub", nm, [a0, a1]))
+                self.tags.add("sub-call")
+            elif r < 0.30:
                 out.append(self.call())
             elif r < 0.55 and self.o["blocks"]:
                 out.append(self.block(1))
@@ -215,6 +248,19 @@ class MG:
         return out
 
 
+def gen_sub(g, name, rng, early_return):
+    params = [("sn", "int"), ("sc", "bool")]
+    saved = g.o["subs"]
+    g.o["subs"] = False
+    body = g.stmts(rng.randint(1, 2), 1, params)
+    if early_return:
+        body.append(("if", rng.choice(["sc", "sn > 1", "sn == 0"]), [rng.choice([g.other(), g.call()]), ("ret",)], []))
+        g.tags.add("early-return")
+    body += g.stmts(rng.randint(1, 2), 1, params)
+    g.o["subs"] = saved
+    return (name, params, body)
+
+
 def gen_move_prog(rng, **opts):
     g = MG(rng, **opts)
     params = []
@@ -222,14 +268,25 @@ def gen_move_prog(rng, **opts):
         params.append(("n", "int"))
     if rng.random() < 0.7 or not opts.get("const_control", True):
         params.append(("c", "bool"))
-    body = g.stmts(rng.randint(1, 6), 0, params)
+    subs = []
+    if g.o["subs"]:
+        for i in range(rng.choice([1, 1, 2])):
+            subs.append(gen_sub(g, f"sub{i}", rng, early_return=rng.random() < 0.6))
+        g.subnames = [s_[0] for s_ in subs]
+    body = []
+    if g.o["subs"] and rng.random() < 0.4:
+        cbody = g.stmts(rng.randint(1, 2), 1, [("cn", "int")])
+        body.append(("closure", "inner", [("cn", "int")], cbody))
+        g.subnames = getattr(g, "subnames", []) + ["inner"]
+        g.tags.add("closure")
+    body += g.stmts(rng.randint(1, 6), 0, params)
     args = []
     for t in range(3):
         a = []
         for p, ann in params:
             a.append(rng.choice([0, 1, 2, 3]) if ann == "int" else (rng.random() < 0.5))
         args.append(tuple(a))
-    return MProg(params=params, devs=g.devs, body=body, arg_tuples=args, tags=g.tags)
+    return MProg(params=params, devs=g.devs, body=body, subs=subs, arg_tuples=args, tags=g.tags)
 
 
 def all_block_shapes(max_depth, max_width, max_calls):
